@@ -202,6 +202,8 @@ Definition step (s : st) (o : N * nat * str) : st :=
   | 4%N => mkst (heap s ++ [cell (heap s) i]) (set_nth (bask s) p (length (heap s)))        (* basket[p] = basket[p].copy() *)
   | 14%N => mkst (heap s) (bask s ++ [i])                                                   (* basket.append(basket[p]): alias *)
   | 16%N => mkst (heap s ++ [construct arg]) (bask s ++ [length (heap s)])                  (* basket.append(BioSeq(arg)) *)
+  | 18%N => mkst (on_basket rc (skipn p (bask s)) (heap s)) (bask s)                       (* basket[p:].rc(): another basket object over the same sequence objects *)
+  | 19%N => mkst (on_basket complement (firstn (S p) (bask s)) (heap s)) (bask s)           (* basket[:p+1].complement() *)
   | _ => match basket_fun opc with
          | Some f => mkst (on_basket f (bask s) (heap s)) (bask s)
          | None => match seq_fun opc arg with
@@ -218,7 +220,7 @@ Fixpoint trace (s : st) (ops : list (N * nat * str)) : list st :=
 Definition run_ops (s : st) (ops : list (N * nat * str)) : st := fold_left step ops s.
 Definition op_ok (nb0 : nat) (o : N * nat * str) : bool :=
   let '(opc, p, arg) := o in
-  Nat.ltb p nb0 && N.ltb opc 18 && (if N.eqb opc 16 then forallb upper_ok arg else true).
+  Nat.ltb p nb0 && N.ltb opc 20 && (if N.eqb opc 16 then forallb upper_ok arg else true).
 (* initial sequences: (true, s) = BioSeq(s) through the constructor, (false, s) = data assigned as it is *)
 Definition init_cell (m : bool * str) : str := if fst m then construct (snd m) else snd m.
 Definition init_st (ini : list (bool * str)) : st := mkst (map init_cell ini) (seq 0 (length ini)).
